@@ -144,7 +144,7 @@ class Variant:
             lines.append("  deps = " + s.deps)
         if s.restat:
             lines.append("  restat = 1")
-        if s.generator:
+        if s.generator and not getattr(s, "generator_at_build", False):
             lines.append("  generator = 1")
         if s.rsp:
             lines.append("  rspfile = " + s.rsp[0])
@@ -175,6 +175,8 @@ class Variant:
             lines.append("  pool = " + s.pool)
         if s.dyndep:
             lines.append("  dyndep = " + s.dyndep)
+        if s.generator and getattr(s, "generator_at_build", False):
+            lines.append("  generator = 1")     # bound in the build block: the rule itself says nothing
         return lines
 
     def scoped_files(self):
